@@ -9,11 +9,13 @@
   (lean/UVerif/Spec/ConvPosInt.lean): the Posit-Standard rounding relation for i2p, truncation toward zero wrapped into
   ibits bits for p2i.
 
-  Both full statements are FALSE of the pinned code; they are kept as `def … : Prop`, refuted at concrete witnesses, and
-  proved on the complement of the defect regions:
-    i2p  — correct rounding whenever |x| < 2^(n+1)                      (`C15_i2p`);   otherwise std::out_of_range (`C15_i2p_throws`)
-    p2i  — truncation (wrapped) on `C15_P2IGood`                        (`C15_p2i`);   outside: negative posits in (−2,−1],
-           integers no wider than the significand with a right shift, posit<2,es> zero (counterexamples below)
+  Both full statements hold of the repaired adapters (`C15_i2p_full`, `C15_i2p_unsigned_full`, `C15_p2i_full`):
+    i2p  — one correct rounding of EVERY integer (more significant bits than the `bitblock<nbits>` holds are collected in a
+           sticky bit; clamp to ±maxpos), IntegerNumber and the unsigned number types alike;
+    p2i  — truncation toward zero, reduced modulo 2^ibits, of EVERY real-valued posit.
+  Nothing is left outside: since the repair of `integer::operator+=` (carry between 64-bit blocks) the multi-block `uint64_t`
+  integer is covered too; `C15_p2i_u64_multiblock_cfg_neg2p120` and `C15_i2p_u64_multiblock_cfg_5` are the former
+  counterexamples, now positive.
 -/
 import UVerifProofs.Lemmas.ConvPosIntI2P
 import UVerifProofs.Lemmas.ConvPosIntP2I
@@ -22,52 +24,49 @@ import UVerifProofs.Lemmas.PositCanon
 
 open UVerif UVerif.Limbs UVerif.Posit UVerif.ConvPosInt
 
-/-- sizes and limb widths covered: everything except more than one `uint64_t` block -/
-def C15_Supported (w ibits : Nat) : Prop := 0 < w ∧ 2 ≤ ibits ∧ (w ≠ 64 ∨ nrBlocks w ibits = 1)
+/-- sizes and limb widths covered: every limb width and every size of at least two bits -/
+def C15_Supported (w ibits : Nat) : Prop := 0 < w ∧ 2 ≤ ibits
 
-example : C15_Supported 8 100 := ⟨by decide, by decide, Or.inl (by decide)⟩
-example : C15_Supported 64 64 := ⟨by decide, by decide, Or.inr (by decide)⟩
+example : C15_Supported 8 100 := ⟨by decide, by decide⟩
+example : C15_Supported 64 200 := ⟨by decide, by decide⟩
+example : C15_Supported 64 64 := ⟨by decide, by decide⟩
 
 variable {w ibits n es : Nat}
 
 /-! ### integer → posit -/
 
-/-- **integer → posit is one correct rounding below the exception boundary.** For every integer size, limb width, posit
-    configuration and every non-zero integer with |x| < 2^(n+1) (most significant bit position ≤ nbits, so that no fraction bit
-    falls off the `bitblock<nbits>`), `convert_i2p` returns the posit the Standard selects for the exact integer value:
-    nearest, ties to even, never 0 / NaR, clamped to ±maxpos. -/
+/-- **integer → posit is one correct rounding.** For every integer size, limb width, posit configuration and every non-zero
+    integer — however many significant bits it has — `convert_i2p` returns the posit the Standard selects for the exact integer
+    value: nearest, ties to even, never 0 / NaR, clamped to ±maxpos. -/
 theorem C15_i2p {a : List Nat} (h : C15_Supported w ibits) (hn : 2 ≤ n) (ha : Canon w ibits a)
-    (hx : toInt w ibits a ≠ 0) (hfit : (toInt w ibits a).natAbs < 2 ^ (n + 1)) :
+    (hx : toInt w ibits a ≠ 0) :
     ∃ r, i2p w ibits n es a = .enc r ∧ PositNearest n es ((toInt w ibits a : Int) : ℚ) r ∧
       ConvPosIntSpec.i2pOk ibits n es (toNat w a) r = true := by
-  obtain ⟨hw, hib, h64⟩ := h
-  have hne : (toInt w ibits a).natAbs ≠ 0 := by omega
-  have hlog : (toInt w ibits a).natAbs.log2 ≤ n := by
-    have := (Nat.log2_lt hne (k := n + 1)).mpr hfit
-    omega
-  refine ⟨Posit.convert n es (i2pVal n (toInt w ibits a)), ?_, ?_, ?_⟩
-  · rw [i2p_eq hw hib h64 ha hx, if_neg (by omega)]
-  · obtain ⟨hfin, hval⟩ := i2pVal_exact n (toInt w ibits a) hx hlog
-    have := convert_val_correct n es hn _ hfin
-    rw [hval] at this
-    exact this
-  · obtain ⟨hfin, hval⟩ := i2pVal_exact n (toInt w ibits a) hx hlog
-    have h1 := convert_val_correct n es hn _ hfin
-    rw [hval] at h1
-    unfold ConvPosIntSpec.i2pOk ConvPosIntSpec.intVal
-    have e : toSigned ibits (toNat w a) = toInt w ibits a := rfl
-    rw [e, h1]
-    simp [convert_lt n es (by omega)]
+  obtain ⟨hw, hib⟩ := h
+  have hr := i2pVal_round n es hn (toInt w ibits a) hx
+  refine ⟨Posit.convert n es (i2pVal n (toInt w ibits a)), i2p_eq hw hib ha hx, hr, ?_⟩
+  unfold ConvPosIntSpec.i2pOk ConvPosIntSpec.intVal
+  have e : toSigned ibits (toNat w a) = toInt w ibits a := rfl
+  rw [e, hr]
+  simp [convert_lt n es (by omega)]
 
-/-- non-vacuity: integer<16, uint8_t> −300 into posit<8,1> (|x| < 2^9; the result −256 is a rounding, 0x84) -/
+/-- non-vacuity: integer<16, uint8_t> −300 into posit<8,1> (the result −256 is a rounding, 0x84);
+    512 into posit<8,0> (ten significant bits, maxpos = 64: clamped, 0x7f);
+    posit<8,2> around 512 … 1024 has one fraction bit (512, 768, 1024) and the integers have more significant bits than the
+    `bitblock<8>` holds: 640 is a tie (→ 512, even), 641 = tie + a dropped bit (→ 768), 896 is a tie (→ 1024, even);
+    2^33 into posit<32,2> (0x7fc80000) -/
 example : C15_Supported 8 16 ∧ Canon 8 16 [0xd4, 0xfe] ∧ toInt 8 16 [0xd4, 0xfe] = -300 ∧
     i2p 8 16 8 1 [0xd4, 0xfe] = .enc 0x84 :=
-  ⟨⟨by decide, by decide, Or.inl (by decide)⟩, by decide, by decide, by decide⟩
+  ⟨⟨by decide, by decide⟩, by decide, by decide, by decide⟩
+example : i2p 8 16 8 0 [0, 2] = .enc 0x7f := by decide
+example : i2p 8 16 8 2 [0x80, 0x02] = .enc 0x72 ∧ i2p 8 16 8 2 [0x81, 0x02] = .enc 0x73 ∧
+    i2p 8 16 8 2 [0x80, 0x03] = .enc 0x74 := by decide
+example : i2p 32 64 32 2 [0, 2] = .enc 0x7fc80000 := by decide
 
 /-- zero converts to zero -/
 theorem C15_i2p_zero {a : List Nat} (h : C15_Supported w ibits) (ha : Canon w ibits a) (hx : toInt w ibits a = 0) :
     i2p w ibits n es a = .enc 0 := by
-  obtain ⟨hw, hib, h64⟩ := h
+  obtain ⟨hw, hib⟩ := h
   have hn0 : 0 < ibits := by omega
   have hA : toNat w a = 0 := by
     have := ofSigned_toSigned_of_lt ha.2.2
@@ -77,111 +76,93 @@ theorem C15_i2p_zero {a : List Nat} (h : C15_Supported w ibits) (ha : Canon w ib
   obtain ⟨hz, hzv⟩ := Integer.convertSigned_zero (w := w) hw hn0
   have hzero : Integer.eq a (Integer.convertSigned w ibits 0) = true := by
     rw [Integer.eq_spec ha hz, hzv, hA]; simp
-  have hneg : Integer.isneg w ibits a = false := by
-    rw [Integer.isneg_spec hw hn0 h64 ha]
-    unfold toInt at hx
-    rw [hx]; simp
-  unfold i2p
+  unfold i2p i2pCore
   simp only
-  rw [intScale_spec hw hib h64 ha, hx, hneg, hzero]
-  simp only [Bool.false_eq_true, if_false]
-  have hm : msbPos w a = -1 := by unfold msbPos; simp [hA]
-  rw [hm, if_neg (by omega)]
+  rw [hzero]
   unfold Posit.convert
   simp
 
 example : i2p 16 24 16 1 [0, 0] = .enc 0 := by decide
 
-/-- **the exception.** From |x| ≥ 2^(n+1) on, the fraction loop indexes position −1 of a `bitblock<nbits>`:
-    the conversion throws std::out_of_range instead of rounding (or clamping to maxpos). -/
-theorem C15_i2p_throws {a : List Nat} (h : C15_Supported w ibits) (ha : Canon w ibits a)
-    (hbig : 2 ^ (n + 1) ≤ (toInt w ibits a).natAbs) : i2p w ibits n es a = .exc := by
-  obtain ⟨hw, hib, h64⟩ := h
-  have hp := Nat.two_pow_pos (n + 1)
-  have hne : (toInt w ibits a).natAbs ≠ 0 := by omega
-  have hx : toInt w ibits a ≠ 0 := by omega
-  have hlog : ¬ (toInt w ibits a).natAbs.log2 < n + 1 := by
-    rw [Nat.log2_lt hne]; omega
-  rw [i2p_eq hw hib h64 ha hx, if_pos (by omega)]
+/-- **the full statement: every integer converts to the Standard's rounding of its value** (zero included) -/
+theorem C15_i2p_full (w ibits n es : Nat) (a : List Nat) (h : C15_Supported w ibits) (hn : 2 ≤ n) (ha : Canon w ibits a) :
+    ∃ r, i2p w ibits n es a = .enc r ∧ ConvPosIntSpec.i2pOk ibits n es (toNat w a) r = true := by
+  by_cases hx : toInt w ibits a = 0
+  · refine ⟨0, C15_i2p_zero h ha hx, ?_⟩
+    unfold ConvPosIntSpec.i2pOk ConvPosIntSpec.intVal
+    have e : toSigned ibits (toNat w a) = toInt w ibits a := rfl
+    have hz : positVal n es 0 = some 0 := by unfold positVal; simp
+    have := nearestB_self n es 0 hn (Nat.two_pow_pos _) 0 hz
+    rw [e, hx]
+    simp only [Int.cast_zero, this, Bool.and_true, decide_eq_true_eq]
+    exact Nat.two_pow_pos _
+  · obtain ⟨r, hr, _, hok⟩ := C15_i2p (es := es) h hn ha hx
+    exact ⟨r, hr, hok⟩
 
-/-- the full statement: every integer converts to the Standard's rounding of its value -/
-def C15_i2p_full : Prop :=
-  ∀ (w ibits n es : Nat) (a : List Nat), C15_Supported w ibits → 2 ≤ n → Canon w ibits a →
-    ∃ r, i2p w ibits n es a = .enc r ∧ ConvPosIntSpec.i2pOk ibits n es (toNat w a) r = true
-
-/-- … is false of the pinned code: integer<16>(512) → posit<8,0> throws (maxpos of posit<8,0> is 64: the answer is 0x7f) -/
-theorem C15_i2p_full_counterexample : ¬ C15_i2p_full := by
-  intro hall
-  obtain ⟨r, hr, _⟩ := hall 8 16 8 0 [0, 2] ⟨by decide, by decide, Or.inl (by decide)⟩ (by decide) (by decide)
-  have : i2p 8 16 8 0 [0, 2] = .exc := by decide
-  rw [this] at hr
-  cases hr
-
-/-- multi-block `uint64_t`: `scale(integer)` never returns, for any value (here 5 in integer<100, uint64_t>) — the
-    restriction `C15_Supported` cannot be dropped -/
-theorem C15_i2p_u64_multiblock_counterexample : i2p 64 100 16 1 [5, 0] = .hang := by decide +kernel
+/-- multi-block `uint64_t` (the former counterexample of the dropped carry): 5 in integer<100, uint64_t> converts to 5 -/
+theorem C15_i2p_u64_multiblock_cfg_5 :
+    i2p 64 100 16 1 [5, 0] = .enc 0x6200 ∧ ConvPosIntSpec.i2pOk 100 16 1 5 0x6200 = true := by decide +kernel
 
 /-! ### integer<ibits, bt, WholeNumber | NaturalNumber> → posit -/
 
-/-- **unsigned number types: one correct rounding below the top bit and below the exception boundary.** For a value
-    0 < x < 2^(ibits−1) with x < 2^(n+1), `convert_i2p` of an unsigned integer returns the posit the Standard selects. -/
-theorem C15_i2p_unsigned {a : List Nat} (h : C15_Supported w ibits) (hn : 2 ≤ n) (ha : Canon w ibits a)
-    (hx : toNat w a ≠ 0) (htop : toNat w a < 2 ^ (ibits - 1)) (hfit : toNat w a < 2 ^ (n + 1)) :
+/-- **unsigned number types: one correct rounding of every value, the top bit included** — and for every limb width: the
+    conversion of an unsigned integer reaches no limb arithmetic (`w < 0` is a block scan, no two's complement is taken). -/
+theorem C15_i2p_unsigned {a : List Nat} (hw : 0 < w) (hib : 0 < ibits) (hn : 2 ≤ n) (ha : Canon w ibits a)
+    (hx : toNat w a ≠ 0) :
     ∃ r, i2pWhole w ibits n es a = .enc r ∧ PositNearest n es ((toNat w a : Nat) : ℚ) r ∧
       ConvPosIntSpec.i2pOkK true ibits n es (toNat w a) r = true := by
-  obtain ⟨hw, hib, h64⟩ := h
-  have hti : toInt w ibits a = ((toNat w a : Nat) : Int) := Integer.toSigned_small (by omega) htop
-  obtain ⟨r, hr, hnear, hok⟩ := C15_i2p (es := es) ⟨hw, hib, h64⟩ hn ha (by rw [hti]; exact_mod_cast hx)
-    (by rw [hti]; simpa using hfit)
-  refine ⟨r, ?_, ?_, ?_⟩
-  · rw [i2pWhole_eq_i2p hw hib h64 ha htop]; exact hr
-  · rw [hti] at hnear; exact_mod_cast hnear
-  · unfold ConvPosIntSpec.i2pOk ConvPosIntSpec.intVal at hok
+  have hr := i2pVal_round n es hn ((toNat w a : Nat) : Int) (by exact_mod_cast hx)
+  have hr' : nearestB n es ((toNat w a : Nat) : ℚ) (Posit.convert n es (i2pVal n ((toNat w a : Nat) : Int))) = true := by
+    exact_mod_cast hr
+  refine ⟨_, i2pWhole_eq hw hib ha hx, hr', ?_⟩
+  unfold ConvPosIntSpec.i2pOkK ConvPosIntSpec.intValK
+  simp only [if_true, Nat.mod_eq_of_lt ha.2.2, Int.cast_natCast, hr', Bool.and_true, decide_eq_true_eq]
+  exact convert_lt n es (by omega) _
+
+/-- non-vacuity: integer<8, uint8_t, WholeNumber> 100 and 200 (top bit set) into posit<16,1> -/
+example : Canon 8 8 [100] ∧ i2pWhole 8 8 16 1 [100] = .enc 0x7920 := ⟨by decide, by decide⟩
+example : Canon 8 8 [0xc8] ∧ i2pWhole 8 8 16 1 [0xc8] = .enc 0x7b20 := ⟨by decide, by decide⟩
+
+/-- unsigned zero converts to zero -/
+theorem C15_i2p_unsigned_zero {a : List Nat} (hw : 0 < w) (hib : 0 < ibits) (ha : Canon w ibits a) (hx : toNat w a = 0) :
+    i2pWhole w ibits n es a = .enc 0 := by
+  obtain ⟨hz, hzv⟩ := Integer.convertSigned_zero (w := w) hw hib
+  have hzero : Integer.eq a (Integer.convertSigned w ibits 0) = true := by
+    rw [Integer.eq_spec ha hz, hzv, hx]; simp
+  unfold i2pWhole i2pCore
+  simp only
+  rw [hzero]
+  unfold Posit.convert
+  simp
+
+/-- **the full statement for the unsigned number types**: every value of integer<ibits, bt, WholeNumber|NaturalNumber>
+    converts to the Standard's rounding of its plain binary value -/
+theorem C15_i2p_unsigned_full (w ibits n es : Nat) (a : List Nat) (hw : 0 < w) (hib : 0 < ibits) (hn : 2 ≤ n)
+    (ha : Canon w ibits a) :
+    ∃ r, i2pWhole w ibits n es a = .enc r ∧ ConvPosIntSpec.i2pOkK true ibits n es (toNat w a) r = true := by
+  by_cases hx : toNat w a = 0
+  · refine ⟨0, C15_i2p_unsigned_zero hw hib ha hx, ?_⟩
     unfold ConvPosIntSpec.i2pOkK ConvPosIntSpec.intValK
-    have e : toSigned ibits (toNat w a) = toInt w ibits a := rfl
-    rw [e, hti] at hok
-    simp only [if_true, Nat.mod_eq_of_lt ha.2.2]
-    exact hok
-
-example : C15_Supported 8 8 ∧ Canon 8 8 [100] ∧ i2pWhole 8 8 16 1 [100] = .enc 0x7920 :=
-  ⟨⟨by decide, by decide, Or.inl (by decide)⟩, by decide, by decide⟩
-
-/-- the full statement for the unsigned number types -/
-def C15_i2p_unsigned_full : Prop :=
-  ∀ (w ibits n es : Nat) (a : List Nat), C15_Supported w ibits → 2 ≤ n → Canon w ibits a → toNat w a < 2 ^ (n + 1) →
-    ∃ r, i2pWhole w ibits n es a = .enc r ∧ ConvPosIntSpec.i2pOkK true ibits n es (toNat w a) r = true
-
-/-- … is false of the pinned code: `scale(integer)` reads bit nbits−1 as a sign whatever the number type, so
-    integer<8, uint8_t, WholeNumber>(200) → posit<16,1> is converted with the scale of 256 − 200 = 56 and comes out as 50
-    (0x7640) instead of 200 (0x7b20) -/
-theorem C15_i2p_unsigned_full_counterexample : ¬ C15_i2p_unsigned_full := by
-  intro hall
-  obtain ⟨r, hr, hok⟩ := hall 8 8 16 1 [0xc8] ⟨by decide, by decide, Or.inl (by decide)⟩ (by decide) (by decide) (by decide)
-  have h1 : i2pWhole 8 8 16 1 [0xc8] = .enc 0x7640 := by decide
-  rw [h1] at hr
-  injection hr with hr
-  subst hr
-  revert hok
-  decide +kernel
+    have hz : positVal n es 0 = some 0 := by unfold positVal; simp
+    have := nearestB_self n es 0 hn (Nat.two_pow_pos _) 0 hz
+    simp only [if_true, hx, Nat.zero_mod, Nat.cast_zero, Int.cast_zero, this, Bool.and_true, decide_eq_true_eq]
+    exact Nat.two_pow_pos _
+  · obtain ⟨r, hr, _, hok⟩ := C15_i2p_unsigned (es := es) hw hib hn ha hx
+    exact ⟨r, hr, hok⟩
 
 /-! ### posit → integer -/
 
-/-- the regions in which `convert_p2i` is right, on the decoded (sign, scale): |x| < 1 (scale < 0); positive x in [1,2)
-    (scale 0); scale > 0 with either a left shift (scale ≥ fbits) or an integer wider than the significand -/
-abbrev C15_P2IGood (ibits n es p : Nat) : Prop :=
-  P2IGood ibits (fbitsOf n es) (decode n es p).sign (decode n es p).scale
-
-/-- **posit → integer is truncation toward zero, reduced modulo 2^ibits, on the good regions.** For every posit
-    configuration, integer size, limb width and every real-valued posit in `C15_P2IGood`, the raw storage produced by
-    `convert_p2i` is canonical and holds the exact posit value truncated toward zero, wrapped into ibits bits (so: the
-    exact value whenever it fits; the identity on integers that fit) — independently of the limb width. -/
+/-- **posit → integer is truncation toward zero, reduced modulo 2^ibits.** For every posit configuration, integer size,
+    limb width and every real-valued posit, the raw storage produced by `convert_p2i` is canonical and holds the exact posit
+    value truncated toward zero, wrapped into ibits bits (so: the exact value whenever it fits; the identity on integers that
+    fit) — independently of the limb width. -/
 theorem C15_p2i {p : Nat} (h : C15_Supported w ibits) (hn : 2 ≤ n) (hp : p < 2 ^ n) (h0 : p ≠ 0)
-    (hnar : p ≠ 2 ^ (n - 1)) (hgood : C15_P2IGood ibits n es p) (x : ℚ) (hx : positVal n es p = some x) :
+    (hnar : p ≠ 2 ^ (n - 1)) (x : ℚ) (hx : positVal n es p = some x) :
     Canon w ibits (p2i w ibits n es p) ∧
     toNat w (p2i w ibits n es p) = ofSigned ibits (truncZ x) ∧
     ConvPosIntSpec.p2iOk n es ibits p (toNat w (p2i w ibits n es p)) = true := by
-  obtain ⟨hw, hib, h64⟩ := h
-  obtain ⟨hc, hv⟩ := p2i_spec hw hib h64 hn hp h0 hnar hgood
+  obtain ⟨hw, hib⟩ := h
+  obtain ⟨hc, hv⟩ := p2i_spec (w := w) (ibits := ibits) (es := es) hw hib hn hp h0 hnar
   have hdv := (decode_value n es p hn hp h0 hnar).1
   rw [hx] at hdv
   injection hdv with hdv
@@ -192,140 +173,41 @@ theorem C15_p2i {p : Nat} (h : C15_Supported w ibits) (hn : 2 ≤ n) (hp : p < 2
   simp
 
 /-- non-vacuity (`truncDec` is the truncated value computed on the decoded triple, `truncZ_positVal`):
-    posit<8,0> 12.0 (0x7a: scale 3 < fbits 5) into integer<12>: the integer is wider than the significand;
+    posit<8,0> 12.0 (0x7a: scale 3 < fbits 5) into integer<12>;
     posit<16,1> 1.5·2^20 (0x7ff2: scale 20 ≥ fbits 12) into integer<8>: left shift, wraps to 0;
-    posit<8,0> −12.0 (0x86) into integer<16, uint16_t>: 0xfff4 -/
-example : C15_P2IGood 12 8 0 0x7a ∧ truncDec 8 0 0x7a = 12 ∧ toNat 8 (p2i 8 12 8 0 0x7a) = 12 := by decide
-example : C15_P2IGood 8 16 1 0x7ff2 ∧ truncDec 16 1 0x7ff2 = 1572864 ∧ toNat 8 (p2i 8 8 16 1 0x7ff2) = 0 := by decide
-example : C15_P2IGood 16 8 0 0x86 ∧ truncDec 8 0 0x86 = -12 ∧ toNat 16 (p2i 16 16 8 0 0x86) = 0xfff4 := by decide
+    posit<8,0> −12.0 (0x86) into integer<16, uint16_t>: 0xfff4;
+    posit<8,0> −1 (0xc0: negative, scale 0) into integer<8>: 0xff;
+    posit<8,0> 2.0 (0x60: fbits 5, scale 1) into integer<4> and posit<16,1> 3.0 (0x5800: fbits 12) into integer<8>: an
+    integer no wider than the significand, the bits below the radix point are dropped before the copy;
+    posit<64,3> 100 into integer<32, uint32_t> -/
+example : truncDec 8 0 0x7a = 12 ∧ toNat 8 (p2i 8 12 8 0 0x7a) = 12 := by decide
+example : truncDec 16 1 0x7ff2 = 1572864 ∧ toNat 8 (p2i 8 8 16 1 0x7ff2) = 0 := by decide
+example : truncDec 8 0 0x86 = -12 ∧ toNat 16 (p2i 16 16 8 0 0x86) = 0xfff4 := by decide
+example : truncDec 8 0 0xc0 = -1 ∧ toNat 8 (p2i 8 8 8 0 0xc0) = 0xff := by decide
+example : truncDec 8 0 0x60 = 2 ∧ toNat 8 (p2i 8 4 8 0 0x60) = 2 ∧
+    truncDec 16 1 0x5800 = 3 ∧ toNat 8 (p2i 8 8 16 1 0x5800) = 3 := by decide
+example : toNat 32 (p2i 32 32 64 3 0x5a40000000000000) = 100 := by decide
 
-/-- **posit 0 → integer 0 (and NaR → 0) for every nbits ≥ 3**: `scale(p)` of these patterns is negative, so the adapter
-    takes the `v = 0` branch. (For nbits = 2 the scale is 0 and the result is 1: `C15_p2i_nbits2_zero_counterexample`.) -/
-theorem C15_p2i_zero {w ibits n es : Nat} (h : C15_Supported w ibits) (hn : 3 ≤ n) (p : Nat) (hp : p = 0 ∨ p = 2 ^ (n - 1)) :
+/-- **posit 0 → integer 0 (and NaR → 0) for every nbits ≥ 2**: the adapter tests `iszero() || isnar()` before it looks at the
+    scale (which is 0 for these patterns when nbits = 2, negative otherwise). -/
+theorem C15_p2i_zero {w ibits n es : Nat} (h : C15_Supported w ibits) (hn : 2 ≤ n) (p : Nat) (hp : p = 0 ∨ p = 2 ^ (n - 1)) :
     p2i w ibits n es p = Integer.convertSigned w ibits 0 ∧ toNat w (p2i w ibits n es p) = 0 := by
-  obtain ⟨N, rfl⟩ : ∃ N, n = N + 3 := ⟨n - 3, by omega⟩
-  simp only [show N + 3 - 1 = N + 2 from rfl] at hp
-  have hlt : p < 2 ^ (N + 3) := by
+  have hlt : p < 2 ^ n := by
     rcases hp with rfl | rfl
     · exact Nat.two_pow_pos _
     · exact Nat.pow_lt_pow_right (by decide) (by omega)
-  have hsc : positScale (N + 3) es p < 0 := by
-    rw [positScale_special hp]
-    have : (0 : Int) < ((2 ^ es : Nat) : Int) := by exact_mod_cast Nat.two_pow_pos es
-    have h1 : (0 : Int) < ((N + 1 : Nat) : Int) := by omega
-    rw [neg_mul]
-    exact neg_neg_of_pos (mul_pos h1 this)
-  have he : p2i w ibits (N + 3) es p = Integer.convertSigned w ibits 0 := by
+  have he : p2i w ibits n es p = Integer.convertSigned w ibits 0 := by
     unfold p2i
     simp only [Nat.mod_eq_of_lt hlt]
-    rw [if_pos hsc]
+    rw [if_pos (by rcases hp with h | h; exact Or.inl h; exact Or.inr (Or.inl h))]
   refine ⟨he, ?_⟩
   rw [he]
-  exact (Integer.convertSigned_zero (w := w) h.1 (by have := h.2.1; omega)).2
+  exact (Integer.convertSigned_zero (w := w) h.1 (by have := h.2; omega)).2
 
 example : toNat 16 (p2i 16 32 16 1 0) = 0 ∧ toNat 16 (p2i 16 32 16 1 0x8000) = 0 := by decide
-
-
-/-- the good regions of `C15_p2i`, stated on the posit's VALUE: |x| < 1, or 1 ≤ x < 2, or |x| ≥ 2 together with
-    |x| ≥ 2^fbits (no fraction bit below the integer ulp: a left shift) or ibits > fbits + 1 -/
-theorem C15_p2i_good_of_value {ibits n es p : Nat} (hn : 2 ≤ n) (hp : p < 2 ^ n) (h0 : p ≠ 0) (hnar : p ≠ 2 ^ (n - 1))
-    (x : ℚ) (hx : positVal n es p = some x)
-    (h : |x| < 1 ∨ (1 ≤ x ∧ x < 2) ∨ (2 ≤ |x| ∧ ((2 : ℚ) ^ fbitsOf n es ≤ |x| ∨ fbitsOf n es + 1 < ibits))) :
-    C15_P2IGood ibits n es p := by
-  obtain ⟨hdv, _, _, hf, hfb, hval⟩ := decode_value n es p hn hp h0 hnar
-  rw [hx] at hdv
-  injection hdv with hdv
-  rw [hval] at hdv
-  set d := decode n es p with hd
-  set f : ℚ := (d.frac : ℚ) / 2 ^ d.fb with hfdef
-  have hf0 : 0 ≤ f := by positivity
-  have hf1 : f < 1 := by rw [hfdef, div_lt_one (by positivity)]; exact_mod_cast hf
-  have hpos : 0 < valS d.scale f := valS_pos hf0
-  have hlo : (2 : ℚ) ^ d.scale ≤ valS d.scale f := by
-    unfold valS; have := two_zpow_pos d.scale; nlinarith
-  have hhi : valS d.scale f < (2 : ℚ) ^ (d.scale + 1) := by
-    unfold valS; rw [zpow_add_one₀ (by norm_num)]; have := two_zpow_pos d.scale; nlinarith
-  have habs : |x| = valS d.scale f := by
-    rw [hdv]; unfold tripleVal
-    cases d.sign
-    · simp only [Bool.false_eq_true, if_false, one_mul]; exact abs_of_pos hpos
-    · simp only [if_true, neg_one_mul, abs_neg]; exact abs_of_pos hpos
-  have mono : ∀ {a b : Int}, a ≤ b → (2 : ℚ) ^ a ≤ (2 : ℚ) ^ b := fun hab => zpow_le_zpow_right₀ (by norm_num) hab
-  unfold C15_P2IGood P2IGood
-  rw [← hd]
-  rcases h with h | ⟨h1, h2⟩ | ⟨h2, h3⟩
-  · left
-    by_contra hc
-    have := mono (show (0 : Int) ≤ d.scale by omega)
-    rw [zpow_zero] at this
-    rw [habs] at h; linarith
-  · right; left
-    have hsg : d.sign = false := by
-      by_contra hc
-      have : d.sign = true := by cases hs : d.sign <;> simp_all
-      rw [hdv] at h1; unfold tripleVal at h1; rw [this] at h1
-      simp only [if_true, neg_one_mul] at h1; linarith
-    have hxv : x = valS d.scale f := by
-      rw [hdv]; unfold tripleVal; rw [hsg]; simp [hfdef]
-    refine ⟨?_, hsg⟩
-    by_contra hc
-    rcases lt_or_gt_of_ne hc with hlt | hgt
-    · have := mono (show d.scale + 1 ≤ 0 by omega)
-      rw [zpow_zero] at this
-      rw [hxv] at h1; linarith
-    · have := mono (show (1 : Int) ≤ d.scale by omega)
-      rw [zpow_one] at this
-      rw [hxv] at h2; linarith
-  · right; right
-    rw [habs] at h2 h3
-    have hs1 : 0 < d.scale := by
-      by_contra hc
-      have := mono (show d.scale + 1 ≤ 1 by omega)
-      rw [zpow_one] at this; linarith
-    refine ⟨hs1, ?_⟩
-    rcases h3 with h3 | h3
-    · left
-      by_contra hc
-      have := mono (show d.scale + 1 ≤ ((fbitsOf n es : Nat) : Int) by omega)
-      rw [zpow_natCast] at this; linarith
-    · right; exact h3
-
-
-/-- the full statement: every real-valued posit converts to its truncation, wrapped -/
-def C15_p2i_full : Prop :=
-  ∀ (w ibits n es p : Nat) (x : ℚ), C15_Supported w ibits → 2 ≤ n → p < 2 ^ n → positVal n es p = some x →
-    toNat w (p2i w ibits n es p) = ofSigned ibits (truncZ x)
-
-/-- … is false of the pinned code: posit<8,0> −1 (0xc0) → integer<8> gives +1 (`if (_scale == 0) v = 1`) -/
-theorem C15_p2i_full_counterexample : ¬ C15_p2i_full := by
-  intro hall
-  have hv := (decode_value 8 0 0xc0 (by decide) (by decide) (by decide) (by decide)).1
-  have := hall 8 8 8 0 0xc0 _ ⟨by decide, by decide, Or.inl (by decide)⟩ (by decide) (by decide) hv
-  rw [truncZ_positVal (by decide) (by decide) (by decide) (by decide) hv] at this
-  revert this
-  decide
-
-/-- a negative posit of scale 0 comes out as +1: outside `C15_P2IGood` and wrong (the value is −1) -/
-theorem C15_p2i_negative_scale0_counterexample :
-    ¬ C15_P2IGood 8 8 0 0xc0 ∧ truncDec 8 0 0xc0 = -1 ∧ toNat 8 (p2i 8 8 8 0 0xc0) = 1 := by decide
-
-/-- an integer no wider than the significand with a right shift: posit<8,0> 2.0 (0x60; fbits 5, scale 1) → integer<4>
-    gives 0, and posit<16,1> 3.0 (0x5800; fbits 12) → integer<8> gives 0 -/
-theorem C15_p2i_narrow_integer_counterexample :
-    ¬ C15_P2IGood 4 8 0 0x60 ∧ truncDec 8 0 0x60 = 2 ∧ toNat 8 (p2i 8 4 8 0 0x60) = 0 ∧
-    ¬ C15_P2IGood 8 16 1 0x5800 ∧ truncDec 16 1 0x5800 = 3 ∧ toNat 8 (p2i 8 8 16 1 0x5800) = 0 := by decide
-
-/-- posit<2,es>: the scale of the zero pattern is 0, so posit zero converts to 1 -/
-theorem C15_p2i_nbits2_zero_counterexample : toNat 8 (p2i 8 4 2 0 0) = 1 := by decide
-
-/-- multi-block `uint64_t`: the negation (`flip(); += 1`) drops the carry out of the low block, so a negative result whose
-    magnitude has 64 zero low bits is off by 2^64: posit<32,2> −2^120 (0x80000001) into integer<128, uint64_t> -/
-theorem C15_p2i_u64_multiblock_counterexample :
-    truncDec 32 2 0x80000001 = -(2 ^ 120 : Int) ∧
-    toNat 64 (p2i 64 128 32 2 0x80000001) ≠ ofSigned 128 (-(2 ^ 120 : Int)) ∧
-    toNat 32 (p2i 32 128 32 2 0x80000001) = ofSigned 128 (-(2 ^ 120 : Int)) := by decide +kernel
-
-/-! ### round trips -/
+/-- posit<2,es>: zero and NaR convert to 0, ±1 to ±1 -/
+example : toNat 8 (p2i 8 4 2 0 0) = 0 ∧ toNat 8 (p2i 8 4 2 0 2) = 0 ∧ toNat 8 (p2i 8 4 2 0 1) = 1 ∧
+    toNat 8 (p2i 8 4 2 0 3) = 0xf := by decide
 
 /-- truncation is the identity on integers -/
 theorem truncZ_intCast (z : Int) : truncZ (z : ℚ) = z := by
@@ -337,30 +219,58 @@ theorem truncZ_intCast (z : Int) : truncZ (z : ℚ) = z := by
       rw [← Rat.intCast_neg]; exact Rat.floor_intCast (-z)
     rw [this]; ring
 
-/-- **integer → posit → integer is the identity whenever the first leg was exact** (the integer is a value of the posit)
-    and the posit lies in `C15_P2IGood`. -/
+/-- **the full statement: every real-valued posit (zero included) converts to its truncation, wrapped** -/
+theorem C15_p2i_full (w ibits n es p : Nat) (x : ℚ) (h : C15_Supported w ibits) (hn : 2 ≤ n) (hp : p < 2 ^ n)
+    (hx : positVal n es p = some x) :
+    toNat w (p2i w ibits n es p) = ofSigned ibits (truncZ x) := by
+  by_cases h0 : p = 0
+  · subst h0
+    have hz : positVal n es 0 = some 0 := by unfold positVal; simp
+    rw [hz] at hx
+    injection hx with hx
+    have ht : truncZ (0 : ℚ) = 0 := by simpa using truncZ_intCast 0
+    rw [(C15_p2i_zero (es := es) h hn 0 (Or.inl rfl)).2, ← hx, ht]
+    simp [ofSigned]
+  · have hnar : p ≠ 2 ^ (n - 1) := by
+      intro hbn; subst hbn
+      have : positVal n es (2 ^ (n - 1)) = none := by
+        unfold positVal
+        have hpp := Nat.two_pow_pos (n - 1)
+        simp only [Nat.mod_eq_of_lt hp]
+        rw [if_neg (by omega)]; simp
+      rw [this] at hx; cases hx
+    exact (C15_p2i (w := w) h hn hp h0 hnar x hx).2.1
+
+/-- multi-block `uint64_t` (the former counterexample of the dropped carry): posit<32,2> −2^120 (0x80000001) into
+    integer<128, uint64_t> is −2^120 for 64-bit and for 32-bit blocks -/
+theorem C15_p2i_u64_multiblock_cfg_neg2p120 :
+    truncDec 32 2 0x80000001 = -(2 ^ 120 : Int) ∧
+    toNat 64 (p2i 64 128 32 2 0x80000001) = ofSigned 128 (-(2 ^ 120 : Int)) ∧
+    toNat 32 (p2i 32 128 32 2 0x80000001) = ofSigned 128 (-(2 ^ 120 : Int)) := by decide +kernel
+
+/-! ### round trips -/
+
+/-- **integer → posit → integer is the identity whenever the first leg was exact** (the integer is a value of the posit). -/
 theorem C15_int_posit_int {a : List Nat} {r : Nat} (h : C15_Supported w ibits) (hn : 2 ≤ n) (ha : Canon w ibits a)
     (hr : r < 2 ^ n) (hr0 : r ≠ 0) (hrnar : r ≠ 2 ^ (n - 1))
-    (hexact : positVal n es r = some ((toInt w ibits a : Int) : ℚ)) (hgood : C15_P2IGood ibits n es r) :
+    (hexact : positVal n es r = some ((toInt w ibits a : Int) : ℚ)) :
     toNat w (p2i w ibits n es r) = toNat w a := by
-  obtain ⟨_, hv, _⟩ := C15_p2i (w := w) h hn hr hr0 hrnar hgood _ hexact
+  obtain ⟨_, hv, _⟩ := C15_p2i (w := w) h hn hr hr0 hrnar _ hexact
   rw [hv, truncZ_intCast]
   unfold toInt
   exact ofSigned_toSigned_of_lt ha.2.2
 
-/-- … and the round trip fails exactly where p2i is wrong: −1 → posit<8,0> → integer gives +1 -/
-theorem C15_int_posit_int_counterexample :
-    toInt 8 8 [0xff] = -1 ∧ i2p 8 8 8 0 [0xff] = .enc 0xc0 ∧ truncDec 8 0 0xc0 = -1 ∧ toNat 8 (p2i 8 8 8 0 0xc0) = 1 := by decide
+/-- −1 → posit<8,0> (0xc0) → integer<8> gives −1 back -/
+example : toInt 8 8 [0xff] = -1 ∧ rti 8 8 8 0 [0xff] = (.enc 0xc0, some [0xff]) := by decide
 
-/-- **posit → integer → posit is the identity** whenever the posit's value is an integer `z` that fits integer<ibits>, lies
-    below the exception boundary of i2p and the posit is in `C15_P2IGood`. -/
+/-- **posit → integer → posit is the identity** whenever the posit's value is an integer `z` that fits integer<ibits>. -/
 theorem C15_posit_int_posit {p : Nat} (h : C15_Supported w ibits) (hn : 2 ≤ n) (hp : p < 2 ^ n) (h0 : p ≠ 0)
-    (hnar : p ≠ 2 ^ (n - 1)) (hgood : C15_P2IGood ibits n es p) (z : Int) (hx : positVal n es p = some (z : ℚ))
-    (hfits : IntegerSpec.fits ibits z = true) (hsmall : z.natAbs < 2 ^ (n + 1)) :
+    (hnar : p ≠ 2 ^ (n - 1)) (z : Int) (hx : positVal n es p = some (z : ℚ))
+    (hfits : IntegerSpec.fits ibits z = true) :
     i2p w ibits n es (p2i w ibits n es p) = .enc p := by
-  obtain ⟨hc, hv, _⟩ := C15_p2i (w := w) h hn hp h0 hnar hgood _ hx
+  obtain ⟨hc, hv, _⟩ := C15_p2i (w := w) h hn hp h0 hnar _ hx
   rw [truncZ_intCast] at hv
-  have hib0 : 0 < ibits := by have := h.2.1; omega
+  have hib0 : 0 < ibits := by have := h.2; omega
   have hti : toInt w ibits (p2i w ibits n es p) = z := by
     unfold toInt; rw [hv]
     unfold IntegerSpec.fits at hfits
@@ -374,7 +284,7 @@ theorem C15_posit_int_posit {p : Nat} (h : C15_Supported w ibits) (hn : 2 ≤ n)
     injection hdv with hdv
     rw [hz0, ht] at hdv
     exact tripleVal_ne_zero _ _ _ _ (by simpa using hdv.symm)
-  obtain ⟨r, hr, hnear, hok⟩ := C15_i2p (es := es) h hn hc (by rw [hti]; exact hz0) (by rw [hti]; exact hsmall)
+  obtain ⟨r, hr, hnear, hok⟩ := C15_i2p (es := es) h hn hc (by rw [hti]; exact hz0)
   rw [hr]
   congr 1
   -- both r and p are correct roundings of z: the relation has one solution
@@ -394,17 +304,20 @@ theorem C15_posit_int_posit {p : Nat} (h : C15_Supported w ibits) (hn : 2 ≤ n)
     rw [div_lt_one (by positivity)]; exact_mod_cast hf
   exact nearestB_unique n es hn _ _ _ hfr hfr1 _ _ hrlt hp hnear hs
 
-/-- non-vacuity: posit<8,0> 12.0 ↔ integer<12, uint8_t> -/
-example : C15_P2IGood 12 8 0 0x7a ∧ truncDec 8 0 0x7a = 12 ∧ IntegerSpec.fits 12 12 = true ∧
+/-- non-vacuity: posit<8,0> 12.0 ↔ integer<12, uint8_t>; posit<8,0> −1 ↔ integer<8>; posit<16,1> 2^18 ↔ integer<32, uint16_t>
+    (19 significant bits: more than the `bitblock<16>` fraction holds) -/
+example : truncDec 8 0 0x7a = 12 ∧ IntegerSpec.fits 12 12 = true ∧
     i2p 8 12 8 0 (p2i 8 12 8 0 0x7a) = .enc 0x7a := by decide
+example : truncDec 8 0 0xc0 = -1 ∧ i2p 8 8 8 0 (p2i 8 8 8 0 0xc0) = .enc 0xc0 := by decide
+example : truncDec 16 1 0x7fe0 = 2 ^ 18 ∧ i2p 16 32 16 1 (p2i 16 32 16 1 0x7fe0) = .enc 0x7fe0 := by decide
 
 /-- **identity on representable values (integer → posit).** If the integer's value is a value of posit<n,es> — `b` is its
-    encoding — and lies below the exception boundary, `convert_i2p` returns exactly `b`. -/
+    encoding — `convert_i2p` returns exactly `b`. -/
 theorem C15_i2p_exact_of_representable {w ibits n es : Nat} {a : List Nat} {b : Nat} (h : C15_Supported w ibits) (hn : 2 ≤ n)
-    (ha : Canon w ibits a) (hx : toInt w ibits a ≠ 0) (hfit : (toInt w ibits a).natAbs < 2 ^ (n + 1))
+    (ha : Canon w ibits a) (hx : toInt w ibits a ≠ 0)
     (hb : b < 2 ^ n) (hrep : positVal n es b = some ((toInt w ibits a : Int) : ℚ)) :
     i2p w ibits n es a = .enc b := by
-  obtain ⟨r, hr, hnear, hok⟩ := C15_i2p (es := es) h hn ha hx hfit
+  obtain ⟨r, hr, hnear, hok⟩ := C15_i2p (es := es) h hn ha hx
   rw [hr]; congr 1
   have hb0 : b ≠ 0 := by
     intro hb0; subst hb0
@@ -437,13 +350,12 @@ theorem C15_i2p_exact_of_representable {w ibits n es : Nat} {a : List Nat} {b : 
     rw [div_lt_one (by positivity)]; exact_mod_cast hf
   exact nearestB_unique n es hn _ _ _ hfr hfr1 _ _ hrlt hb hnear hs
 
-/-- **integer → posit → integer is the identity on representable values**: the integer is a value of the posit (encoding `b`),
-    below the exception boundary, and `b` lies in `C15_P2IGood` -/
+/-- **integer → posit → integer is the identity on representable values**: the integer is a value of the posit (encoding `b`) -/
 theorem C15_int_posit_int_representable {w ibits n es : Nat} {a : List Nat} {b : Nat} (h : C15_Supported w ibits) (hn : 2 ≤ n)
-    (ha : Canon w ibits a) (hx : toInt w ibits a ≠ 0) (hfit : (toInt w ibits a).natAbs < 2 ^ (n + 1))
-    (hb : b < 2 ^ n) (hrep : positVal n es b = some ((toInt w ibits a : Int) : ℚ)) (hgood : C15_P2IGood ibits n es b) :
+    (ha : Canon w ibits a) (hx : toInt w ibits a ≠ 0)
+    (hb : b < 2 ^ n) (hrep : positVal n es b = some ((toInt w ibits a : Int) : ℚ)) :
     rti w ibits n es a = (.enc b, some (p2i w ibits n es b)) ∧ toNat w (p2i w ibits n es b) = toNat w a := by
-  have he := C15_i2p_exact_of_representable h hn ha hx hfit hb hrep
+  have he := C15_i2p_exact_of_representable h hn ha hx hb hrep
   have hb0 : b ≠ 0 := by
     intro hb0; subst hb0
     have : positVal n es 0 = some 0 := by unfold positVal; simp
@@ -459,19 +371,21 @@ theorem C15_int_posit_int_representable {w ibits n es : Nat} {a : List Nat} {b :
       simp only [Nat.mod_eq_of_lt hlt]
       rw [if_neg (by omega)]; simp
     rw [this] at hrep; cases hrep
-  refine ⟨?_, C15_int_posit_int h hn ha hb hb0 hbnar hrep hgood⟩
+  refine ⟨?_, C15_int_posit_int h hn ha hb hb0 hbnar hrep⟩
   unfold rti
   rw [he]
 
--- non-vacuity: 12 in integer<12, uint8_t> is the value of posit<8,0> 0x7a
-example : toInt 8 12 [12, 0] = 12 ∧ truncDec 8 0 0x7a = 12 ∧ C15_P2IGood 12 8 0 0x7a ∧
+-- non-vacuity: 12 in integer<12, uint8_t> is the value of posit<8,0> 0x7a; 2^18 in integer<32, uint16_t> of posit<16,1> 0x7fe0
+example : toInt 8 12 [12, 0] = 12 ∧ truncDec 8 0 0x7a = 12 ∧
     rti 8 12 8 0 [12, 0] = (.enc 0x7a, some [12, 0]) := by decide
+example : toInt 16 32 [0, 4] = 2 ^ 18 ∧ truncDec 16 1 0x7fe0 = 2 ^ 18 ∧
+    rti 16 32 16 1 [0, 4] = (.enc 0x7fe0, some [0, 4]) := by decide
 
 /-! ### block-type independence (C12 for the adapters) -/
 
-/-- on the good regions the integer produced by p2i does not depend on the limb width -/
+/-- the integer produced by p2i does not depend on the limb width -/
 theorem C15_p2i_blocktype_independent {w' p : Nat} (h : C15_Supported w ibits) (h' : C15_Supported w' ibits) (hn : 2 ≤ n)
-    (hp : p < 2 ^ n) (h0 : p ≠ 0) (hnar : p ≠ 2 ^ (n - 1)) (hgood : C15_P2IGood ibits n es p) :
+    (hp : p < 2 ^ n) (h0 : p ≠ 0) (hnar : p ≠ 2 ^ (n - 1)) :
     toNat w (p2i w ibits n es p) = toNat w' (p2i w' ibits n es p) := by
   obtain ⟨hdv, _⟩ := decode_value n es p hn hp h0 hnar
-  rw [(C15_p2i (w := w) h hn hp h0 hnar hgood _ hdv).2.1, (C15_p2i (w := w') h' hn hp h0 hnar hgood _ hdv).2.1]
+  rw [(C15_p2i (w := w) h hn hp h0 hnar _ hdv).2.1, (C15_p2i (w := w') h' hn hp h0 hnar _ hdv).2.1]
